@@ -92,3 +92,61 @@ Theorem static_is_constant_callable_time u p t id : u_time u = UStatic t -> (for
   perform_update C u p = perform_update C (mkUpd (UCall id) (u_meas u) (u_tags u) (u_fields u) (u_unset_fields u) (u_unset_tags u)) p.
 Proof. intros Hu Hc. unfold perform_update. cbn [u_time u_meas u_tags u_fields u_unset_fields u_unset_tags]. rewrite Hu, Hc. reflexivity. Qed.
 End UpdateP.
+
+(* ---- a static update applied twice is the update applied once ------------------------------------------------------------- *)
+Definition merge_unset {V : Type} (t : list (str * V)) (ks : list str) (d : list (str * V)) : list (str * V) :=
+  fold_left (fun d k => ddel k d) ks (dupdate d t).
+
+Lemma dsorted_unset {V : Type} : forall ks (d : list (str * V)), dsorted d = true -> dsorted (fold_left (fun d k => ddel k d) ks d) = true.
+Proof. induction ks as [|k ks IH]; intros d H; [exact H|]. cbn [fold_left]. apply IH. now apply dsorted_ddel. Qed.
+
+Lemma merge_unset_idempotent {V : Type} (t : list (str * V)) ks d : dsorted t = true -> dsorted d = true ->
+  merge_unset t ks (merge_unset t ks d) = merge_unset t ks d.
+Proof.
+  intros Ht Hd. unfold merge_unset.
+  assert (S1 : dsorted (dupdate d t) = true) by now apply dsorted_dupdate.
+  assert (S2 : dsorted (fold_left (fun d k => ddel k d) ks (dupdate d t)) = true) by now apply dsorted_unset.
+  apply dict_ext.
+  - apply dsorted_unset. now apply dsorted_dupdate.
+  - exact S2.
+  - intros k. rewrite dget_unset by now apply dsorted_dupdate. rewrite (dget_unset k ks _ S1).
+    destruct (existsb (str_eqb k) ks) eqn:Ex; [reflexivity|].
+    rewrite (dget_dupdate k t _ Ht), (dget_unset k ks _ S1), Ex, (dget_dupdate k t _ Ht). destruct (dget k t); reflexivity.
+Qed.
+
+Section StaticIdem.
+Variable C : cenv.
+
+Definition static_arg {A} (a : uarg A) : Prop := match a with UCall _ => False | _ => True end.
+Definition static_update (u : updspec) : Prop :=
+  static_arg (u_time u) /\ static_arg (u_meas u) /\ static_arg (u_tags u) /\ static_arg (u_fields u) /\
+  (match u_tags u with UStatic t => dsorted t = true | _ => True end) /\ (match u_fields u with UStatic f => dsorted f = true | _ => True end).
+
+Definition st_time (u : updspec) (p : point) : Z := match u_time u with UStatic t => t | _ => p_time p end.
+Definition st_meas (u : updspec) (p : point) : str := match u_meas u with UStatic (c :: m) => c :: m | _ => p_meas p end.
+Definition st_tags (u : updspec) (d : list (str * option str)) := merge_unset (match u_tags u with UStatic t => t | _ => [] end) (u_unset_tags u) d.
+Definition st_fields (u : updspec) (d : list (str * option num)) := merge_unset (match u_fields u with UStatic t => t | _ => [] end) (u_unset_fields u) d.
+
+Lemma static_update_form u p : static_update u ->
+  perform_update C u p = UOk (mkPoint (st_time u p) (st_meas u p) (st_tags u (p_tags p)) (st_fields u (p_fields p))).
+Proof.
+  intros [Ht [Hm [Hg [Hf _]]]]. unfold perform_update, st_time, st_meas, st_tags, st_fields, merge_unset.
+  destruct (u_time u) as [|t|id]; try contradiction;
+  destruct (u_meas u) as [|[|c m]|id2]; try contradiction;
+  destruct (u_tags u) as [|tg|id3]; try contradiction;
+  destruct (u_fields u) as [|fl|id4]; try contradiction; reflexivity.
+Qed.
+
+Theorem static_update_idempotent u p p' : static_update u -> wf_point p ->
+  perform_update C u p = UOk p' -> perform_update C u p' = UOk p'.
+Proof.
+  intros Hs [Wt Wf] H. rewrite (static_update_form u p Hs) in H. injection H as <-.
+  rewrite (static_update_form u _ Hs). f_equal.
+  destruct Hs as [_ [_ [_ [_ [Sg Sf]]]]].
+  unfold st_time, st_meas, st_tags, st_fields. cbn [p_time p_meas p_tags p_fields]. f_equal.
+  - destruct (u_time u); reflexivity.
+  - destruct (u_meas u) as [|[|c m]|id]; reflexivity.
+  - apply merge_unset_idempotent; [destruct (u_tags u); auto | exact Wt].
+  - apply merge_unset_idempotent; [destruct (u_fields u); auto | exact Wf].
+Qed.
+End StaticIdem.
